@@ -75,6 +75,34 @@ pub struct Error<E1, E2> {
     pub location: Range<usize>,
 }
 
+/// Parses a variable value as an integer.
+///
+/// The value may be a decimal, octal (leading `0`), or hexadecimal (leading
+/// `0x` or `0X`) integer constant, optionally preceded by a sign, so that a
+/// variable whose value is an integer constant denotes the same number as the
+/// constant written in the expression.
+fn parse_integer(value: &str) -> Option<i64> {
+    let (sign, digits) = match value.as_bytes().first() {
+        Some(b'-') => ("-", &value[1..]),
+        Some(b'+') => ("", &value[1..]),
+        _ => ("", value),
+    };
+    let (radix, digits) = if let Some(digits) = digits
+        .strip_prefix("0x")
+        .or_else(|| digits.strip_prefix("0X"))
+    {
+        (0x10, digits)
+    } else if digits.len() > 1 && digits.starts_with('0') {
+        (0o10, &digits[1..])
+    } else {
+        (10, digits)
+    };
+    if digits.starts_with(['+', '-']) {
+        return None;
+    }
+    i64::from_str_radix(&format!("{sign}{digits}"), radix).ok()
+}
+
 /// Expands a variable to its value.
 fn expand_variable<E: Env>(
     name: &str,
@@ -83,10 +111,10 @@ fn expand_variable<E: Env>(
 ) -> Result<Value, Error<E::GetVariableError, E::AssignVariableError>> {
     match env.get_variable(name) {
         Ok(None) => Ok(Value::Integer(0)),
-        // TODO Parse non-decimal integer and float
-        Ok(Some(value)) => match value.parse() {
-            Ok(number) => Ok(Value::Integer(number)),
-            Err(_) => Err(Error {
+        // TODO Parse float
+        Ok(Some(value)) => match parse_integer(value) {
+            Some(number) => Ok(Value::Integer(number)),
+            None => Err(Error {
                 cause: EvalError::InvalidVariableValue(value.to_string()),
                 location: location.clone(),
             }),
@@ -432,6 +460,34 @@ mod tests {
             expand_variable("b", &(11..12), env),
             Ok(Value::Integer(-123))
         );
+    }
+
+    #[test]
+    fn expand_variable_non_decimal() {
+        let env = &mut HashMap::new();
+        env.insert("a".to_string(), "010".to_string());
+        env.insert("b".to_string(), "0x1F".to_string());
+        env.insert("c".to_string(), "-0X10".to_string());
+        env.insert("d".to_string(), "-9223372036854775808".to_string());
+        env.insert("e".to_string(), "08".to_string());
+        env.insert("f".to_string(), "0x".to_string());
+        env.insert("g".to_string(), "0x-1".to_string());
+        assert_eq!(expand_variable("a", &(0..1), env), Ok(Value::Integer(8)));
+        assert_eq!(expand_variable("b", &(0..1), env), Ok(Value::Integer(31)));
+        assert_eq!(expand_variable("c", &(0..1), env), Ok(Value::Integer(-16)));
+        assert_eq!(
+            expand_variable("d", &(0..1), env),
+            Ok(Value::Integer(i64::MIN))
+        );
+        for (name, value) in [("e", "08"), ("f", "0x"), ("g", "0x-1")] {
+            assert_eq!(
+                expand_variable(name, &(0..1), env),
+                Err(Error {
+                    cause: EvalError::InvalidVariableValue(value.to_string()),
+                    location: 0..1,
+                })
+            );
+        }
     }
 
     #[test]
